@@ -40,6 +40,7 @@ type H struct { // per-scenario harness state shared by the wrappers
 	// scripted faults of the delegate SDK: RegisterCallback / instrument constructors refuse these names
 	refuseReg, refuseInst map[string]bool
 	kindOf                map[string]string          // harness process -> kind (is a refusal part of a hand-over?)
+	cbOfSid               map[string]string          // identity of an observable instrument -> the harness callback observing it
 	cbs                   map[string]metric.Callback // callback name -> the function internal/global registered with the SDK
 	cbCh                  map[string]chan struct{}   // closed when that happens the first time
 	nref                  map[string]int             // refusals per item
@@ -65,9 +66,9 @@ func (h *H) refused(what, obj, sdk string, err error) {
 }
 
 func (h *H) gate(point string) { h.sched.gate(h.sched.me(), point) }
-func (h *H) sdkUse(kind, id, sdk string) {
+func (h *H) sdkUse(kind, id, sdk, sid string) {
 	if id != "" {
-		h.emit(map[string]any{"ev": "SdkUse", "kind": kind, "id": id, "inst": sdk + "/" + instOfID(id), "sdk": sdk})
+		h.emit(map[string]any{"ev": "SdkUse", "kind": kind, "id": id, "inst": sdk + "/" + instOfID(id), "sdk": sdk, "sid": sid})
 	}
 }
 
@@ -102,217 +103,254 @@ type wMeter struct {
 	id string
 }
 
-func (m *wMeter) inst(name string) error {
+// sidOf: the identity of an instrument as the API documents it: name, kind, unit, description.
+func sidOf(name, kind, unit, desc string) string {
+	if kind == "" {
+		kind = "i64counter"
+	}
+	return name + "|" + kind + "|" + unit + "|" + desc
+}
+
+// inst: gate + scripted refusal + log; returns the identity of the SDK instrument about to be created
+func (m *wMeter) inst(name, kind, unit, desc string) (string, error) {
 	m.h.gate("sdk.Inst:" + name)
 	if m.h.refuseInst[name] {
 		err := errors.New("refused inst " + name)
 		m.h.refused("inst", name, m.id, err)
-		return err
+		return "", err
 	}
-	m.h.emit(map[string]any{"ev": "SdkObj", "what": "inst", "obj": name, "sdk": m.id})
-	return nil
+	sid := sidOf(name, kind, unit, desc)
+	m.h.emit(map[string]any{"ev": "SdkObj", "what": "inst", "obj": name, "sdk": m.id, "sid": sid})
+	return sid, nil
 }
-func (m *wMeter) remember(o any, name string, err error) {
+func (m *wMeter) remember(o any, sid string, err error) {
 	if err == nil {
 		m.h.mu.Lock()
-		m.h.obs[o] = name
+		m.h.obs[o] = sid
 		m.h.mu.Unlock()
 	}
 }
 
 type wI64C struct {
 	metric.Int64Counter
-	h *H
-	s string
+	h      *H
+	s, sid string
 }
 
 func (w wI64C) Add(ctx context.Context, v int64, o ...metric.AddOption) {
-	w.h.sdkUse("mp", idOf(ctx), w.s)
+	w.h.sdkUse("mp", idOf(ctx), w.s, w.sid)
 	w.Int64Counter.Add(ctx, v, o...)
+}
+func (m *wMeter) Int64Counter(n string, o ...metric.Int64CounterOption) (metric.Int64Counter, error) {
+	c := metric.NewInt64CounterConfig(o...)
+	sid, err := m.inst(n, "i64counter", c.Unit(), c.Description())
+	if err != nil {
+		return nil, err
+	}
+	r, err := m.Meter.Int64Counter(n, o...)
+	return wI64C{r, m.h, m.id, sid}, err
 }
 
 type wI64U struct {
 	metric.Int64UpDownCounter
-	h *H
-	s string
+	h      *H
+	s, sid string
 }
 
 func (w wI64U) Add(ctx context.Context, v int64, o ...metric.AddOption) {
-	w.h.sdkUse("mp", idOf(ctx), w.s)
+	w.h.sdkUse("mp", idOf(ctx), w.s, w.sid)
 	w.Int64UpDownCounter.Add(ctx, v, o...)
+}
+func (m *wMeter) Int64UpDownCounter(n string, o ...metric.Int64UpDownCounterOption) (metric.Int64UpDownCounter, error) {
+	c := metric.NewInt64UpDownCounterConfig(o...)
+	sid, err := m.inst(n, "i64updown", c.Unit(), c.Description())
+	if err != nil {
+		return nil, err
+	}
+	r, err := m.Meter.Int64UpDownCounter(n, o...)
+	return wI64U{r, m.h, m.id, sid}, err
 }
 
 type wI64H struct {
 	metric.Int64Histogram
-	h *H
-	s string
+	h      *H
+	s, sid string
 }
 
 func (w wI64H) Record(ctx context.Context, v int64, o ...metric.RecordOption) {
-	w.h.sdkUse("mp", idOf(ctx), w.s)
+	w.h.sdkUse("mp", idOf(ctx), w.s, w.sid)
 	w.Int64Histogram.Record(ctx, v, o...)
+}
+func (m *wMeter) Int64Histogram(n string, o ...metric.Int64HistogramOption) (metric.Int64Histogram, error) {
+	c := metric.NewInt64HistogramConfig(o...)
+	sid, err := m.inst(n, "i64hist", c.Unit(), c.Description())
+	if err != nil {
+		return nil, err
+	}
+	r, err := m.Meter.Int64Histogram(n, o...)
+	return wI64H{r, m.h, m.id, sid}, err
 }
 
 type wI64G struct {
 	metric.Int64Gauge
-	h *H
-	s string
+	h      *H
+	s, sid string
 }
 
 func (w wI64G) Record(ctx context.Context, v int64, o ...metric.RecordOption) {
-	w.h.sdkUse("mp", idOf(ctx), w.s)
+	w.h.sdkUse("mp", idOf(ctx), w.s, w.sid)
 	w.Int64Gauge.Record(ctx, v, o...)
+}
+func (m *wMeter) Int64Gauge(n string, o ...metric.Int64GaugeOption) (metric.Int64Gauge, error) {
+	c := metric.NewInt64GaugeConfig(o...)
+	sid, err := m.inst(n, "i64gauge", c.Unit(), c.Description())
+	if err != nil {
+		return nil, err
+	}
+	r, err := m.Meter.Int64Gauge(n, o...)
+	return wI64G{r, m.h, m.id, sid}, err
 }
 
 type wF64C struct {
 	metric.Float64Counter
-	h *H
-	s string
+	h      *H
+	s, sid string
 }
 
 func (w wF64C) Add(ctx context.Context, v float64, o ...metric.AddOption) {
-	w.h.sdkUse("mp", idOf(ctx), w.s)
+	w.h.sdkUse("mp", idOf(ctx), w.s, w.sid)
 	w.Float64Counter.Add(ctx, v, o...)
+}
+func (m *wMeter) Float64Counter(n string, o ...metric.Float64CounterOption) (metric.Float64Counter, error) {
+	c := metric.NewFloat64CounterConfig(o...)
+	sid, err := m.inst(n, "f64counter", c.Unit(), c.Description())
+	if err != nil {
+		return nil, err
+	}
+	r, err := m.Meter.Float64Counter(n, o...)
+	return wF64C{r, m.h, m.id, sid}, err
 }
 
 type wF64U struct {
 	metric.Float64UpDownCounter
-	h *H
-	s string
+	h      *H
+	s, sid string
 }
 
 func (w wF64U) Add(ctx context.Context, v float64, o ...metric.AddOption) {
-	w.h.sdkUse("mp", idOf(ctx), w.s)
+	w.h.sdkUse("mp", idOf(ctx), w.s, w.sid)
 	w.Float64UpDownCounter.Add(ctx, v, o...)
+}
+func (m *wMeter) Float64UpDownCounter(n string, o ...metric.Float64UpDownCounterOption) (metric.Float64UpDownCounter, error) {
+	c := metric.NewFloat64UpDownCounterConfig(o...)
+	sid, err := m.inst(n, "f64updown", c.Unit(), c.Description())
+	if err != nil {
+		return nil, err
+	}
+	r, err := m.Meter.Float64UpDownCounter(n, o...)
+	return wF64U{r, m.h, m.id, sid}, err
 }
 
 type wF64H struct {
 	metric.Float64Histogram
-	h *H
-	s string
+	h      *H
+	s, sid string
 }
 
 func (w wF64H) Record(ctx context.Context, v float64, o ...metric.RecordOption) {
-	w.h.sdkUse("mp", idOf(ctx), w.s)
+	w.h.sdkUse("mp", idOf(ctx), w.s, w.sid)
 	w.Float64Histogram.Record(ctx, v, o...)
+}
+func (m *wMeter) Float64Histogram(n string, o ...metric.Float64HistogramOption) (metric.Float64Histogram, error) {
+	c := metric.NewFloat64HistogramConfig(o...)
+	sid, err := m.inst(n, "f64hist", c.Unit(), c.Description())
+	if err != nil {
+		return nil, err
+	}
+	r, err := m.Meter.Float64Histogram(n, o...)
+	return wF64H{r, m.h, m.id, sid}, err
 }
 
 type wF64G struct {
 	metric.Float64Gauge
-	h *H
-	s string
+	h      *H
+	s, sid string
 }
 
 func (w wF64G) Record(ctx context.Context, v float64, o ...metric.RecordOption) {
-	w.h.sdkUse("mp", idOf(ctx), w.s)
+	w.h.sdkUse("mp", idOf(ctx), w.s, w.sid)
 	w.Float64Gauge.Record(ctx, v, o...)
 }
-
-func (m *wMeter) Int64Counter(n string, o ...metric.Int64CounterOption) (metric.Int64Counter, error) {
-	if err := m.inst(n); err != nil {
-		return nil, err
-	}
-	r, err := m.Meter.Int64Counter(n, o...)
-	return wI64C{r, m.h, m.id}, err
-}
-func (m *wMeter) Int64UpDownCounter(n string, o ...metric.Int64UpDownCounterOption) (metric.Int64UpDownCounter, error) {
-	if err := m.inst(n); err != nil {
-		return nil, err
-	}
-	r, err := m.Meter.Int64UpDownCounter(n, o...)
-	return wI64U{r, m.h, m.id}, err
-}
-func (m *wMeter) Int64Histogram(n string, o ...metric.Int64HistogramOption) (metric.Int64Histogram, error) {
-	if err := m.inst(n); err != nil {
-		return nil, err
-	}
-	r, err := m.Meter.Int64Histogram(n, o...)
-	return wI64H{r, m.h, m.id}, err
-}
-func (m *wMeter) Int64Gauge(n string, o ...metric.Int64GaugeOption) (metric.Int64Gauge, error) {
-	if err := m.inst(n); err != nil {
-		return nil, err
-	}
-	r, err := m.Meter.Int64Gauge(n, o...)
-	return wI64G{r, m.h, m.id}, err
-}
-func (m *wMeter) Float64Counter(n string, o ...metric.Float64CounterOption) (metric.Float64Counter, error) {
-	if err := m.inst(n); err != nil {
-		return nil, err
-	}
-	r, err := m.Meter.Float64Counter(n, o...)
-	return wF64C{r, m.h, m.id}, err
-}
-func (m *wMeter) Float64UpDownCounter(n string, o ...metric.Float64UpDownCounterOption) (metric.Float64UpDownCounter, error) {
-	if err := m.inst(n); err != nil {
-		return nil, err
-	}
-	r, err := m.Meter.Float64UpDownCounter(n, o...)
-	return wF64U{r, m.h, m.id}, err
-}
-func (m *wMeter) Float64Histogram(n string, o ...metric.Float64HistogramOption) (metric.Float64Histogram, error) {
-	if err := m.inst(n); err != nil {
-		return nil, err
-	}
-	r, err := m.Meter.Float64Histogram(n, o...)
-	return wF64H{r, m.h, m.id}, err
-}
 func (m *wMeter) Float64Gauge(n string, o ...metric.Float64GaugeOption) (metric.Float64Gauge, error) {
-	if err := m.inst(n); err != nil {
+	c := metric.NewFloat64GaugeConfig(o...)
+	sid, err := m.inst(n, "f64gauge", c.Unit(), c.Description())
+	if err != nil {
 		return nil, err
 	}
 	r, err := m.Meter.Float64Gauge(n, o...)
-	return wF64G{r, m.h, m.id}, err
+	return wF64G{r, m.h, m.id, sid}, err
 }
 
 // observable instruments are handed out unwrapped (the SDK's RegisterCallback insists on its own
-// types); the wrapper only remembers which name each one has
+// types); the wrapper only remembers which identity each one has
 func (m *wMeter) Int64ObservableCounter(n string, o ...metric.Int64ObservableCounterOption) (metric.Int64ObservableCounter, error) {
-	if err := m.inst(n); err != nil {
+	c := metric.NewInt64ObservableCounterConfig(o...)
+	sid, err := m.inst(n, "i64ocounter", c.Unit(), c.Description())
+	if err != nil {
 		return nil, err
 	}
 	r, err := m.Meter.Int64ObservableCounter(n, o...)
-	m.remember(r, n, err)
+	m.remember(r, sid, err)
 	return r, err
 }
 func (m *wMeter) Int64ObservableUpDownCounter(n string, o ...metric.Int64ObservableUpDownCounterOption) (metric.Int64ObservableUpDownCounter, error) {
-	if err := m.inst(n); err != nil {
+	c := metric.NewInt64ObservableUpDownCounterConfig(o...)
+	sid, err := m.inst(n, "i64oupdown", c.Unit(), c.Description())
+	if err != nil {
 		return nil, err
 	}
 	r, err := m.Meter.Int64ObservableUpDownCounter(n, o...)
-	m.remember(r, n, err)
+	m.remember(r, sid, err)
 	return r, err
 }
 func (m *wMeter) Int64ObservableGauge(n string, o ...metric.Int64ObservableGaugeOption) (metric.Int64ObservableGauge, error) {
-	if err := m.inst(n); err != nil {
+	c := metric.NewInt64ObservableGaugeConfig(o...)
+	sid, err := m.inst(n, "i64ogauge", c.Unit(), c.Description())
+	if err != nil {
 		return nil, err
 	}
 	r, err := m.Meter.Int64ObservableGauge(n, o...)
-	m.remember(r, n, err)
+	m.remember(r, sid, err)
 	return r, err
 }
 func (m *wMeter) Float64ObservableCounter(n string, o ...metric.Float64ObservableCounterOption) (metric.Float64ObservableCounter, error) {
-	if err := m.inst(n); err != nil {
+	c := metric.NewFloat64ObservableCounterConfig(o...)
+	sid, err := m.inst(n, "f64ocounter", c.Unit(), c.Description())
+	if err != nil {
 		return nil, err
 	}
 	r, err := m.Meter.Float64ObservableCounter(n, o...)
-	m.remember(r, n, err)
+	m.remember(r, sid, err)
 	return r, err
 }
 func (m *wMeter) Float64ObservableUpDownCounter(n string, o ...metric.Float64ObservableUpDownCounterOption) (metric.Float64ObservableUpDownCounter, error) {
-	if err := m.inst(n); err != nil {
+	c := metric.NewFloat64ObservableUpDownCounterConfig(o...)
+	sid, err := m.inst(n, "f64oupdown", c.Unit(), c.Description())
+	if err != nil {
 		return nil, err
 	}
 	r, err := m.Meter.Float64ObservableUpDownCounter(n, o...)
-	m.remember(r, n, err)
+	m.remember(r, sid, err)
 	return r, err
 }
 func (m *wMeter) Float64ObservableGauge(n string, o ...metric.Float64ObservableGaugeOption) (metric.Float64ObservableGauge, error) {
-	if err := m.inst(n); err != nil {
+	c := metric.NewFloat64ObservableGaugeConfig(o...)
+	sid, err := m.inst(n, "f64ogauge", c.Unit(), c.Description())
+	if err != nil {
 		return nil, err
 	}
 	r, err := m.Meter.Float64ObservableGauge(n, o...)
-	m.remember(r, n, err)
+	m.remember(r, sid, err)
 	return r, err
 }
 
@@ -326,8 +364,10 @@ func (m *wMeter) RegisterCallback(f metric.Callback, insts ...metric.Observable)
 		if i == nil {
 			continue
 		}
-		if n, ok := m.h.obs[i]; ok {
-			cb = n
+		if sid, ok := m.h.obs[i]; ok { // identity of the SDK instrument -> the callback that is meant to observe it
+			if n, ok := m.h.cbOfSid[sid]; ok {
+				cb = n
+			}
 		}
 	}
 	m.h.mu.Unlock()
@@ -350,8 +390,8 @@ func (m *wMeter) RegisterCallback(f metric.Callback, insts ...metric.Observable)
 	}
 	m.h.emit(map[string]any{"ev": "SdkCbRegistered", "cb": cb, "sdk": m.id})
 	reg, err := m.Meter.RegisterCallback(f, insts...)
-	if err != nil {
-		m.h.emit(map[string]any{"ev": "SdkCbRegisterFailed", "cb": cb, "err": err.Error()})
+	if err != nil { // the real SDK refuses (e.g. an observable of another SDK / meter): a refusal like the scripted ones
+		m.h.refused("cb", cb, m.id, err)
 		return reg, err
 	}
 	m.h.mu.Lock()
@@ -425,7 +465,7 @@ type wTracer struct {
 }
 
 func (t *wTracer) Start(ctx context.Context, name string, o ...trace.SpanStartOption) (context.Context, trace.Span) {
-	t.h.sdkUse("tp", idOf(ctx), t.id)
+	t.h.sdkUse("tp", idOf(ctx), t.id, "")
 	return t.Tracer.Start(ctx, name, o...)
 }
 
@@ -436,7 +476,7 @@ type wProp struct {
 }
 
 func (p wProp) Inject(ctx context.Context, c propagation.TextMapCarrier) {
-	p.h.sdkUse("prop", idOf(ctx), p.id)
+	p.h.sdkUse("prop", idOf(ctx), p.id, "")
 }
 func (p wProp) Extract(ctx context.Context, c propagation.TextMapCarrier) context.Context {
 	return ctx
@@ -450,7 +490,7 @@ type wEH struct {
 
 func (e wEH) Handle(err error) {
 	if err != nil && strings.HasPrefix(err.Error(), "xid=") {
-		e.h.sdkUse("eh", err.Error()[len("xid="):], e.id)
+		e.h.sdkUse("eh", err.Error()[len("xid="):], e.id, "")
 	}
 }
 
